@@ -23,13 +23,18 @@ def run(tier, seed):
     rt, validated, ts = valve_trace(PID, tier, seed, w, v, lay, tp)
     reps.append(rt)
     mc.append(ts)
+    rt2, validated2, ts2 = exchange_trace(PID, tier, seed, w, v, lay, tp)
+    reps.append(rt2)
+    mc.append(ts2)
+    validated += validated2
     nviol, _ = v.finish()
     cov = std_cov(st + mc + [g], reps, {
         "rule": "one case = one complete behaviour of the exchange specification (configuration + server reaction per request) "
                 "enumerated by TLC, concretised with random replies built from the layout tables; distinct by behaviour",
         "exhaustive": True,
         "impl_to_spec": "random recorded valve::query exchanges (retries up to 5, up to 4 challenge rounds per attempt, junk replies) "
-                        "validated line by line against spec/Trace_ValveA2S.tla"}, validated=validated)
+                        "validated line by line against spec/Trace_ValveA2S.tla; the same for the single-unit protocols against "
+                        "spec/Trace_Exchange.tla"}, validated=validated)
     write_evidence(PID, tier, seed, LEVEL, cov, time.time() - t0, nviol, ASSUMPTIONS)
     return 1 if nviol else 0
 
